@@ -134,6 +134,7 @@ def worker(args):
             if it == 0: part.sample({"part": "references/rename", "text": text[:300]}, 1)
         except (ServerDied, Timeout, FrameError) as e:
             feat.died(part, e, "references/rename request", {"kind": "doc", "text": text}, sess)
+    feat.report(part)
     sess.kill()
     return part
 
